@@ -436,6 +436,12 @@ class FileDomain(NormDomain):
         return NormDomain.unary(self, op, a, node)
 
     def compare(self, op, a, b, node):
+        if isinstance(op, (ast.In, ast.NotIn)) and isinstance(b, DictV) and not b.open and isinstance(a, (Tup, Const, Sym)):
+            # a memo probed with `key in memo`: the samples and parameters are in general position (different symbols stand for different
+            # values -- the case in which two of them coincide is the case in which they are written with one symbol), so a key is in the
+            # memo exactly when an entry was stored under the same key
+            hit = any(k == a for k, _ in b.entries)
+            return hit == isinstance(op, ast.In)
         if isinstance(op, (ast.Is, ast.IsNot)) and isinstance(a, (FArr, BytesV, FileH)) and isinstance(b, (FArr, BytesV, FileH)):
             # arrays are objects: two names are the same array when they hold the same object (a view is another object)
             return (a is b) == isinstance(op, ast.Is)
@@ -672,6 +678,10 @@ class FileDomain(NormDomain):
                 return True
             target.items = [('?', 0, 1)] * len(target.items)
             return True
+        if isinstance(target, Unknown):
+            # the value that is written into was lost (an array routine this domain does not model, ...): it may be a view of an array the
+            # rule goes on to judge, and dropping the store would leave that array as it was.  Not followed, said so.
+            raise AnalysisError('a store into a value that was not followed (%s), which may be a view of an array that is judged later' % (target.why if hasattr(target, 'why') else target,))
         return None
 
     def augassign(self, op, target, val, node):
@@ -840,6 +850,11 @@ class FileDomain(NormDomain):
             if None in perm or sorted(p % v.ndim for p in perm) != list(range(v.ndim)):
                 return Unknown('transpose axes')
             return v.axis_perm([p % v.ndim for p in perm])
+        if name == 'moveaxis' and len(args) == 2 and all(self._int(a) is not None for a in args):
+            src, dst = self._int(args[0]) % v.ndim, self._int(args[1]) % v.ndim
+            perm = [k for k in range(v.ndim) if k != src]
+            perm.insert(dst, src)
+            return v.axis_perm(perm)
         if name == 'swapaxes' and len(args) == 2 and all(self._int(a) is not None for a in args):
             perm = list(range(v.ndim))
             i, j = self._int(args[0]) % v.ndim, self._int(args[1]) % v.ndim
@@ -1626,7 +1641,7 @@ class FileDomain(NormDomain):
                 if max(axes) >= a.ndim:
                     raise AbsRaise('ValueError', node)
             return a.flipped(axes)
-        if f in ('transpose', 'swapaxes', 'reshape', 'ravel', 'squeeze'):
+        if f in ('transpose', 'swapaxes', 'moveaxis', 'reshape', 'ravel', 'squeeze'):
             return self.arr_method(a, f, args[1:], kwargs, node)
         if f == 'rot90':
             k = self._int(kwargs.get('k', args[1] if len(args) > 1 else Const(1)))
@@ -1758,6 +1773,12 @@ class FileDomain(NormDomain):
             return self.emap(clip, a, lo, hi)
         if f == 'nan_to_num':
             return Unknown('nan_to_num')
+        if f == 'expand_dims' and len(args) + len(kwargs) == 2:
+            ax = self._int(kwargs.get('axis', args[1] if len(args) > 1 else None))
+            if ax is None:
+                return Unknown('expand_dims axis')
+            k = ax % (a.ndim + 1)
+            return a.view(a.shape[:k] + (1,) + a.shape[k:])
         if f == 'broadcast_to' and len(args) == 2:
             dims = [self._int(x) for x in (args[1].items if isinstance(args[1], Tup) else [args[1]])]
             if None in dims or len(dims) < a.ndim:
